@@ -92,7 +92,16 @@ func accMethods(id string) []byte {
 	return ctl(`{"accessMethods":[{"id":` + id + `}]}`)
 }
 
-func closeMsg(phase string) []byte {
+func closeMsg(r *vh.Rng, phase string) []byte {
+	// maxTime is peer-controlled: usual, absent, zero, huge
+	switch r.Intn(5) {
+	case 1:
+		return end(`{"connectionClose":[{"phase":"` + phase + `"}]}`)
+	case 2:
+		return end(`{"connectionClose":[{"phase":"` + phase + `"},{"maxTime":4294967295}]}`)
+	case 3:
+		return end(`{"connectionClose":[{"phase":"` + phase + `"},{"maxTime":0},{"reason":"unspecific"}]}`)
+	}
 	return end(`{"connectionClose":[{"phase":"` + phase + `"},{"maxTime":500}]}`)
 }
 
@@ -165,7 +174,7 @@ func rawVariants(r *vh.Rng) []byte {
 }
 
 // shipIDs used in scenarios
-var shipIDs = []string{"idA", "idB", "", "datagram-id", "ID-with-\\\"quote"}
+var shipIDs = []string{"idA", "idB", "", "datagram-id", "ID-with-\\\"quote", "IDA", "ida", "idA ", "idb"}
 
 // validFor returns the message a cooperative peer would send next in state st.
 func validFor(r *vh.Rng, st int, storedID string, coop bool) []byte {
@@ -236,7 +245,7 @@ func anyMessage(r *vh.Rng) []byte {
 	case 5:
 		return dataVariant(r, r.Intn(1000)+1)
 	case 6:
-		return closeMsg(vh.Pick(r, []string{"announce", "confirm", "foo"}))
+		return closeMsg(r, vh.Pick(r, []string{"announce", "confirm", "foo"}))
 	case 7:
 		return rawVariants(r)
 	default:
